@@ -223,9 +223,13 @@ def shard(ctx):
     accepted, _ = corpus.classify(w, texts)
     accepted = [t for t in accepted if "INKEY$" not in t.upper()]
     n = ctx.params["n"] // ctx.n
-    # ---- (a) + (b) on the whole-repertoire workload ----
-    for _ in range(n):
-        kind, src, stdin, uses_files, lpt1, feats = c08_case(rng, texts, accepted)
+    # ---- (a) + (b) on the whole-repertoire workload, after every accepted corpus program once (sharded) ----
+    queue = [("corpus", accepted[i], "1\n2\n", True, None, []) for i in ctx.indices(len(accepted))]
+    for _ in range(n + len(queue)):
+        if queue:
+            kind, src, stdin, uses_files, lpt1, feats = queue.pop()
+        else:
+            kind, src, stdin, uses_files, lpt1, feats = c08_case(rng, texts, accepted)
         if "INKEY$" in src.upper():
             continue
         rep = w.run(src, want=["files"] if uses_files else [], stdin=stdin, files={} if uses_files else None, budget=60000)
